@@ -41,6 +41,18 @@ def failing_build(kind):
     return stub
 
 
+# native scenarios per leftover: what a user would see if that piece of bookkeeping survived a rejected source
+FIELD_SCEN = {
+    "nested": (["eval 7", "eval #( foo #)", "eval 8", "stack"], [("no_panic",), ("last_result_in", ["ok"]), ("depth", 2)]),
+    "ctx": (["eval 7", "eval #( foo #)", "eval 8", "stack"], [("no_panic",), ("last_result_in", ["ok"]), ("depth", 2)]),
+    "input": (["eval #( \"1 nosuchword 2\" ~) 777", "eval 5", "stack"], [("no_panic",), ("last_result_in", ["ok"]), ("depth", 1)]),
+    "flow_stack": (["eval 1 if", "eval 5 var zz", "stack"], [("no_panic",), ("last_result_in", ["ok"]), ("depth", 0)]),
+    "special": (["eval [ 1 2 foo", "eval 3 ]", "stack"], [("no_panic",), ("last_result_in", ["err"])]),
+    "loops": (["eval 3 0 do foo loop", "eval I"], [("no_panic",), ("last_result_in", ["err"])]),
+    "return_stack": (["eval : f foo ; f", "eval 5", "stack"], [("no_panic",), ("last_result_in", ["ok"]), ("depth", 1)]),
+    "dict": (["eval : f 1 ; foo", "eval f"], [("no_panic",), ("last_result_in", ["err UnknownWord"])]),
+}
+
 SCEN = {
     "immediate": (["eval 1 foo 2 3", "eval 4", "stack"], [("no_panic",), ("depth", 1)]),
     "general": (["eval 7", "eval #( foo #)", "eval 8", "stack"], [("no_panic",), ("last_result_in", ["ok"]), ("depth", 2)]),
@@ -81,8 +93,10 @@ def frame_lemma(kind, mode):
                 continue
             S1 = final_state(L, o)
             for f in BOOKKEEPING:
+                fs = FIELD_SCEN.get(f)
                 L.require(o, veq(L.ex, L.field(S1, "State", f), L.field(pre.S, "State", f)),
-                          "%s failing build (%s mode): `%s` is back to what it was before the source was submitted" % (kind, mode, f), cex=cex)
+                          "%s failing build (%s mode): `%s` is back to what it was before the source was submitted" % (kind, mode, f),
+                          cex=(lambda m_, fs=fs: {"lines": fs[0], "expect": fs[1]}) if fs else cex)
             L.require(o, veq(L.ex, L.field(S1, "State", "data_stack"), pre.ds), "%s failing build (%s mode): values already on the data stack stay" % (kind, mode), cex=cex)
             code1, dm1 = L.field(S1, "State", "code"), L.field(S1, "State", "debug_map")
             ip1 = L.field(L.field(S1, "State", "ctx"), "Context", "ip").t
